@@ -750,8 +750,13 @@ namespace occa {
         }
       }
       else if (opType & operatorType::sizeof_) {
+        // sizeofNode prints its own parentheses: sizeof(x) holds x, not (x)
+        const exprNode *arg = &value;
+        if (value.type() & exprNodeType::parentheses) {
+          arg = ((parenthesesNode&) value).value;
+        }
         state.pushOutput(
-          new sizeofNode(&opToken, value)
+          new sizeofNode(&opToken, *arg)
         );
       }
       else if (opType & operatorType::new_) {
